@@ -162,6 +162,62 @@ def check_z3_translator(repo: Repo, rep: Report) -> None:
             rep.ok("OPC-3", f"Op.{op}: z3 handler agrees with the reference meaning on arities {ars} ({tested} operand vectors)")
         elif bad[0]:
             rep.finding(bad[0], Z3_FILE, "_convert_expr", f"handler Op.{op}", bad[1], fn.lineno)
+    # nested trees: the handler's recursion must hand each sub-term to the right place
+    try:
+        import itertools as _it
+
+        def leafv(cls: str, vid: int) -> Obj:
+            base = "BoolExpr" if cls == "BoolVar" else "IntExpr"
+            return Obj([cls, base, "Expr"], op=Tag("Op.VAR"), operands=[], id=vid, lo=-5, hi=5)
+
+        def T(res: str, op_: str, ops_: List[Any]) -> Obj:
+            return Obj(["BoolExpr" if res == "b" else "IntExpr", "Expr"], op=Tag("Op." + op_), operands=list(ops_))
+
+        p_, q_, r_ = leafv("IntVar", 4), leafv("IntVar", 5), leafv("IntVar", 6)
+        x_, y_, z_ = leafv("BoolVar", 1), leafv("BoolVar", 2), leafv("BoolVar", 3)
+        shapes = [
+            ("a - (b - c)", T("i", "SUB", [p_, T("i", "SUB", [q_, r_])])), ("(a - b) - c", T("i", "SUB", [T("i", "SUB", [p_, q_]), r_])),
+            ("a - b - c (one node)", T("i", "SUB", [p_, q_, r_])), ("a + b + c (one node)", T("i", "ADD", [p_, q_, r_])),
+            ("a - (b + c)", T("i", "SUB", [p_, T("i", "ADD", [q_, r_])])), ("-(a - b)", T("i", "NEG", [T("i", "SUB", [p_, q_])])),
+            ("x => (y => z)", T("b", "IMP", [x_, T("b", "IMP", [y_, z_])])), ("(x => y) => z", T("b", "IMP", [T("b", "IMP", [x_, y_]), z_])),
+            ("x xor (y xor z)", T("b", "XOR", [x_, T("b", "XOR", [y_, z_])])), ("!(x | y) & z", T("b", "AND", [T("b", "NOT", [T("b", "OR", [x_, y_])]), z_])),
+            ("(a - b) == c", T("b", "EQ", [T("i", "SUB", [p_, q_]), r_])), ("if x then a - b else c", T("i", "IF", [x_, T("i", "SUB", [p_, q_]), r_])),
+            ("alldiff(a, b - c, c)", T("b", "ALLDIFF", [p_, T("i", "SUB", [q_, r_]), r_])),
+        ]
+        shapes = [s_ for s_ in shapes if all(o_ in by for o_ in ("SUB",)) or " - " not in s_[0]]
+
+        def value(t: Any, val: Dict[int, Any]) -> Any:
+            if isinstance(t, (bool, int)):
+                return t
+            if t.attrs["op"].name.endswith("VAR"):
+                return val[t.attrs["id"]]
+            return EM.REF[t.attrs["op"].name.split(".")[-1]]["f"]([value(o, val) for o in t.attrs["operands"]])
+
+        badn = None
+        nn = 0
+        for label, tree in shapes:
+            for iv in _it.product((-2, 0, 3), repeat=3):
+                for bv in _it.product((False, True), repeat=3):
+                    val = {4: iv[0], 5: iv[1], 6: iv[2], 1: bv[0], 2: bv[1], 3: bv[2]}
+                    nn += 1
+                    got = convert(tree, dict(val))
+                    want = value(tree, val)
+                    if not same(got, want):
+                        badn = (label, val, got, want)
+                        break
+                if badn:
+                    break
+            if badn:
+                break
+        if badn:
+            rep.finding("OPC-3", Z3_FILE, "_convert_expr", "nested expressions",
+                        f"the tree {badn[0]} under {badn[1]!r} is translated to a term denoting {badn[2]!r}; the tree means {badn[3]!r}", fn.lineno)
+        else:
+            rep.ok("OPC-3", f"{len(shapes)} nested trees (also 3-ary nodes) denote their reference meaning on {nn} valuations", points=nn)
+    except (Undecided, IndexOutOfRange) as ex:
+        rep.undecide("OPC-3", f"nested expressions: {ex}")
+    except Raised as ex:
+        rep.finding("OPC-3", Z3_FILE, "_convert_expr", "nested expressions", f"the translator raises {ex.what}", fn.lineno)
     rep.floor("OPC-3", 15)
     rep.assume("z3's own operators and z3.And/Or/Not/Xor/If/Implies/Distinct have their documented meaning; "
                "z3 coerces Python bool/int literals inside its operator overloads")
